@@ -14,7 +14,7 @@ LEVEL = "model_checking"
 ASSUME = ["data races are observed with the Go race detector (go build -race) on free-running scenarios with microsecond ticker intervals; "
           "a race that needs a schedule the scenarios never produce is not seen",
           "race reports are reduced to pairs of innermost library frames", "TLC/SANY, Go toolchain"]
-SCENARIOS = ["ticker-vs-fg", "ticker-with-work", "queries-vs-stop", "double-stop", "start-stop", "smart", "readers-same-file",
+SCENARIOS = ["callback-queries-progress", "smart-stop-inflight", "ticker-vs-fg", "ticker-with-work", "queries-vs-stop", "double-stop", "start-stop", "smart", "readers-same-file",
              "handles-distinct-files", "filewriter-incremental", "bufferpool"]
 
 
@@ -38,6 +38,11 @@ def run(ctx):
     # 2. the code as it is: the models enumerate the racing pairs and the double-close panic
     code = ctx.tlc("Rebalancer.tla", "C18_code.cfg", workers=1, timeout=600)
     scode = ctx.tlc("SmartLifecycle.tla", "C18_smart_code.cfg", workers=1, timeout=600)
+    # the stop protocol with respect to background work: Stop must look at the mode after it waited for the monitor
+    ctx.model_check("SmartStop.tla", "C18_smartstop_fixed.cfg", workers=2)
+    early = ctx.tlc("SmartStop.tla", "C18_smartstop_early.cfg", workers=2, timeout=120)
+    if early.ok or not early.violated:
+        raise H.Infra("SmartStop with CODE_StopReadsModeEarly no longer violates QuietAfterStop")
     pan = ctx.tlc("Rebalancer.tla", "C18_code_panic.cfg", workers=4, timeout=300)
     if pan.ok or not pan.violated:
         raise H.Infra("Rebalancer with CODE_Unlocked no longer reaches the double-close panic")
